@@ -2,8 +2,9 @@ import Rare.Base.Bytes
 /-!
 A SMALL model of the regex engine behind `--match` (Go's `regexp`, reached through
 `fastregex.CompileEx` / `FindSubmatchIndex`), for a fragment of the syntax: literals, byte classes,
-`.`, `^`, `$`, concatenation, alternation, `*` `+` `?` (greedy and lazy) over bodies that cannot match
-the empty text, capture groups.  Semantics = leftmost-first (Perl/RE2 backtracking priority): the
+`.`, the empty-width assertions (`^`, `$`, `\A`, `\z`, `\b`, `\B`, and the line-wise `^` `$` of POSIX mode),
+concatenation, alternation, `*` `+` `?` (greedy and lazy) over bodies that cannot match the empty text,
+counted repetition `{n}` `{n,}` `{n,m}` (unfolded by the parser the way `syntax.Simplify` does), capture groups.  Semantics = leftmost-first (Perl/RE2 backtracking priority): the
 unanchored search tries the start offsets `0, 1, …` in turn and, at a start offset, explores the
 alternatives in priority order (left branch of `|` first, one more iteration before stopping for a
 greedy loop, the other way round for a lazy one).
@@ -21,11 +22,16 @@ did not happen again keeps the earlier value – as in Go).
 -/
 namespace Rare.C02.Rx
 
+/-- the empty-width assertions (`syntax.EmptyOp`): begin / end of text (`^` `$` `\A` `\z` in Perl mode),
+begin / end of line (`^` `$` in POSIX mode, which has no `OneLine` flag), `\b`, `\B` -/
+inductive Look where
+  | bot | eot | bol | eol | wb | nwb
+  deriving Repr, Inhabited, DecidableEq
+
 inductive Re where
   | eps
   | cls (neg : Bool) (ranges : List (UInt8 × UInt8))
-  | bol
-  | eol
+  | look (k : Look)
   | cat (a b : Re)
   | alt (a b : Re)
   | star (greedy : Bool) (a : Re)
@@ -39,12 +45,30 @@ abbrev Res := Nat × Caps
 def inCls (neg : Bool) (rs : List (UInt8 × UInt8)) (b : UInt8) : Bool :=
   neg != rs.any fun r => decide (r.1 ≤ b) && decide (b ≤ r.2)
 
+/-- `syntax.IsWordChar` on bytes -/
+def isWord (b : UInt8) : Bool :=
+  (48 ≤ b && b ≤ 57) || (65 ≤ b && b ≤ 90) || (97 ≤ b && b ≤ 122) || b = 95
+
+/-- is there a word character just before offset `i` / at offset `i`? (outside the text: no) -/
+def wordBefore (s : Bytes) (i : Nat) : Bool :=
+  if i = 0 then false else match s[i - 1]? with | some b => isWord b | none => false
+def wordAt (s : Bytes) (i : Nat) : Bool :=
+  match s[i]? with | some b => isWord b | none => false
+
+/-- `syntax.EmptyOpContext(r1, r2)` asked for one assertion at offset `i` of `s` -/
+def holds (s : Bytes) : Look → Nat → Bool
+  | .bot, i => i = 0
+  | .eot, i => i = s.length
+  | .bol, i => i = 0 || s[i - 1]? = some 10
+  | .eol, i => i = s.length || s[i]? = some 10
+  | .wb, i => wordBefore s i != wordAt s i
+  | .nwb, i => wordBefore s i == wordAt s i
+
 /-- can the expression match the empty text somewhere? (syntactic) -/
 def nullable : Re → Bool
   | .eps => true
   | .cls _ _ => false
-  | .bol => true
-  | .eol => true
+  | .look _ => true
   | .cat a b => nullable a && nullable b
   | .alt a b => nullable a || nullable b
   | .star _ _ => true
@@ -65,8 +89,7 @@ def den (s : Bytes) : Re → Nat → Caps → List Res
     match s[i]? with
     | some b => if inCls neg rs b then [(i + 1, c)] else []
     | none => []
-  | .bol, i, c => if i = 0 then [(i, c)] else []
-  | .eol, i, c => if i = s.length then [(i, c)] else []
+  | .look k, i, c => if holds s k i then [(i, c)] else []
   | .cat a b, i, c => (den s a i c).flatMap fun r => den s b r.1 r.2
   | .alt a b, i, c => den s a i c ++ den s b i c
   | .star g a, i, c => iter (den s a) g s.length i c
@@ -93,8 +116,7 @@ def mk {β : Type} (s : Bytes) : Re → Nat → Caps → (Nat → Caps → Optio
     match s[i]? with
     | some b => if inCls neg rs b then k (i + 1) c else none
     | none => none
-  | .bol, i, c, k => if i = 0 then k i c else none
-  | .eol, i, c, k => if i = s.length then k i c else none
+  | .look l, i, c, k => if holds s l i then k i c else none
   | .cat a b, i, c, k => mk s a i c (fun j c' => mk s b j c' k)
   | .alt a b, i, c, k =>
     match mk s a i c k with
@@ -116,6 +138,27 @@ def searchFrom (s : Bytes) (r : Re) : Nat → Nat → Option (Nat × Res)
     | none => searchFrom s r f (p + 1)
 
 def search (s : Bytes) (r : Re) : Option (Nat × Res) := searchFrom s r (s.length + 1) 0
+
+/-- POSIX mode (`CompilePOSIX`, leftmost-LONGEST): among the matches from one start offset the engine
+reports the longest, and among the longest the one a backtracking search finds first – the first
+element of the priority list that reaches the largest end offset -/
+def pickLongest : List Res → Option Res
+  | [] => none
+  | x :: xs =>
+    match pickLongest xs with
+    | none => some x
+    | some y => if x.1 < y.1 then some y else some x
+
+def matchAtL (s : Bytes) (r : Re) (p : Nat) : Option Res := pickLongest (den s r p [])
+
+def searchFromL (s : Bytes) (r : Re) : Nat → Nat → Option (Nat × Res)
+  | 0, _ => none
+  | f + 1, p =>
+    match matchAtL s r p with
+    | some res => some (p, res)
+    | none => searchFromL s r f (p + 1)
+
+def searchL (s : Bytes) (r : Re) : Option (Nat × Res) := searchFromL s r (s.length + 1) 0
 
 /-- the current value of group `n` -/
 def lookup (c : Caps) (n : Nat) : Option (Nat × Nat) := (c.find? fun e => e.1 == n).map (·.2)
@@ -140,5 +183,31 @@ def findSubmatchIndex (s : Bytes) (r : Re) (ng : Nat) : List Int :=
   match search s r with
   | none => []
   | some m => indicesOf ng m
+
+end Rare.C02.Rx
+
+namespace Rare.C02.Rx
+
+/-- `CompilePOSIX(…).FindSubmatchIndex(line)` -/
+def findSubmatchIndexL (s : Bytes) (r : Re) (ng : Nat) : List Int :=
+  match searchL s r with
+  | none => []
+  | some m => indicesOf ng m
+
+/-- `n` copies of `a` in a row, then `tail` -/
+def copies (a : Re) : Nat → Re → Re
+  | 0, tail => tail
+  | n + 1, tail => .cat a (copies a n tail)
+
+/-- the optional tail of `x{n,m}`: `(x(x(x)?)?)?` with `k` levels (`syntax.Simplify`) -/
+def optNest (greedy : Bool) (a : Re) : Nat → Re
+  | 0 => .eps
+  | k + 1 => if greedy then .alt (.cat a (optNest greedy a k)) .eps else .alt .eps (.cat a (optNest greedy a k))
+
+/-- counted repetition as `syntax.Simplify` unfolds it: `x{n,m}` = `n` copies and `m-n` nested optional
+copies; `x{n,}` = `n` copies and `x*` (Go: `n-1` copies and `x+`) -/
+def repeatRe (greedy : Bool) (a : Re) (min : Nat) : Option Nat → Re
+  | some max => copies a min (optNest greedy a (max - min))
+  | none => copies a min (.star greedy a)
 
 end Rare.C02.Rx
